@@ -283,6 +283,24 @@ class G:
         na = r.randint(1, pf["max_actions"])
         for i in range(na):
             actions.append(self.action(i))
+        # a raise/reset pair of actions on a fluent that has a per-fluent default (histories in which a fluent leaves its
+        # default and comes back are what difference-based state representations get wrong)
+        if pf.get("toggle_pairs") and r.random() < pf["toggle_pairs"]:
+            wd = [f for f in self.fluents if f["default"] is not None]
+            if wd:
+                f = r.choice(wd)
+                other = None
+                for _ in range(8):
+                    c = self.const_for(f["type"])
+                    if c is not None and c != f["default"]:
+                        other = c
+                        break
+                if other is not None:
+                    params = [[f"t{j}", pt] for j, (_, pt) in enumerate(f["sig"])]
+                    fe = ["f", f["name"]] + [["p", pn] for pn, _ in params]
+                    self.feat.add("toggle-pair")
+                    actions.append({"name": self.name("up", len(actions)), "params": params, "pre": [], "effects": [{"kind": "assign", "fluent": fe, "value": other, "cond": None, "forall": []}]})
+                    actions.append({"name": self.name("dn", len(actions)), "params": params, "pre": [], "effects": [{"kind": "assign", "fluent": fe, "value": f["default"], "cond": None, "forall": []}]})
         goals = [self.boolean(1, {}) for _ in range(r.choice([1, 1, 2]))]
         invariants = []
         if r.random() < pf["invariants"]:
